@@ -103,17 +103,19 @@ class BaseData:
                 self.set_column_unique_param(key)
 
     def set_column_unique_param(self, key: str) -> None:
+        if key == "constraints":
+            check_in_list = [
+                unique["columns"] for unique in self.constraints.get("uniques", [])
+            ]
+        else:
+            statement = getattr(self, key, [])
+            if isinstance(statement, dict):
+                statement = statement.get("columns", [])
+            check_in_list = [statement]
         for column in self.columns:
-            if key == "constraints":
-                unique = getattr(self, key, {}).get("unique", [])
-                if unique:
-                    check_in = unique["columns"]
-                else:
-                    check_in = []
-            else:
-                check_in = getattr(self, key, {})
-            if len(check_in) == 1 and column["name"] in check_in:
-                column["unique"] = True
+            for check_in in check_in_list:
+                if len(check_in) == 1 and column["name"] in check_in:
+                    column["unique"] = True
 
     def normalize_ref_columns_in_final_output(self):
         for col_ref in self.ref_columns:
